@@ -151,6 +151,99 @@ for n in range(0, 3):
 if mirrored == 0:
     ck.inconclusive.append('vacuous: WAL mirror obligation never instantiated')
 
+# ------------------------------------------------------------------ N: node level - what a handler made durable equals what it holds in memory
+# The real handlers run with a *real* RaftWal (on the file model) behind `self.wal`; afterwards the file is reopened and
+# RaftRecoveryState::from_wal is executed: the recovered (term, vote) must equal the node's in-memory (term, vote) after the
+# handler - memory is never ahead of the disk, so whatever the node answered or acted on survives a restart.
+ck.declare('N1_memory_never_ahead_of_wal', 'handle_request_vote / start_election / handle_append_entries (term adoption) with a real WAL holding the node\'s prior (term, vote)',
+           'after the handler returns, recovery from the log gives exactly the in-memory term and vote (persist-before-apply); on a WAL write failure nothing changed')
+ck.bounds['node level'] = 'log 0..1 entries, one prior TermAndVote record, payload image 2 bytes; one handler call'
+ex2 = ck.executor('tensor_chain', unroll=40, default_maxlen=2, max_paths=100000)
+ex2.generic_subst = {'W': 'FileWriter'}
+for kk in ('RaftNode::is_peer_healthy', 'RaftNode::geometric_vote_bias', '<LogEntry as Clone>::clone', 'FastPathState::clear_leader', 'FastPathValidator::reset',
+           'FastPathState::add_embedding', 'FastPathValidator::record_validation', 'RaftStats::record_fast_path', 'RaftStats::record_full_validation',
+           'RaftStats::record_rejected', 'FastPathValidator::check_fast_path', 'FastPathState::get_embeddings', 'SparseVector::to_dense', '<SparseVector as Clone>::clone'):
+    ex2.extra_models[kk] = ex.extra_models[kk]
+ex2.extra_models['RaftWal::check_space'] = lambda c: ok(UNIT)
+sc2 = WalScenario(ck, ex2, 'RaftWal::open', 'RaftWal::append', 'RaftWal::replay', 'RaftWalEntry')
+TV = P.variant_index('RaftWalEntry', 'TermAndVote')
+node_runs = 0
+for handler in ('request_vote', 'start_election', 'append_entries'):
+    for nlog in (0, 1):
+        st = ex2.new_state()
+        st.env['codec_len'] = 2
+        N = Node(st, nlog)
+        st.assume(z3.ULT(N.term0.v, U64(1 << 62)))
+        st.assume(z3.UGT(N.term0.v, U64(0)))
+        # the log file already holds the node's current (term, vote)
+        opened = sc2.open(st, 'node wal')
+        if len(opened) != 1 or opened[0][1] is None:
+            ck.inconclusive.append('node-level: initial open failed')
+            continue
+        st = opened[0][0]
+        N.node = st.roots['node']
+        N.ptr = st.roots['nodeptr']
+        r0 = Enum('RaftWalEntry', TV, {('TermAndVote', 0): Int(N.term0.v, False),
+                                       ('TermAndVote', 1): Enum('std::option::Option<std::string::String>', N.vote0_disc, {('Some', 0): N.vote0_some})}, variant='TermAndVote')
+        outs = sc2.append(st, r0, 'prior term/vote record')
+        good = [o for o in outs if o[1] is None]
+        if len(good) != 1:
+            ck.inconclusive.append('node-level: could not write the prior record')
+            continue
+        st = good[0][0]
+        walobj = st.roots['wal'].load(st)
+        st.roots['node'].fields[F('RaftNode', 'wal')] = some(Ptr(Cell(val=Struct('Mutex', {'data': Cell(val=walobj)})), 0),
+                                                             'std::option::Option<std::sync::Arc<parking_lot::lock_api::Mutex<parking_lot::RawMutex, raft_wal::RaftWal>>>')
+        frm = st.fresh('std::string::String', 'from')
+        if handler == 'request_vote':
+            msg = st.fresh('RequestVote', 'rv')
+            call = ('RaftNode::handle_request_vote', [st.roots['nodeptr'], ref(frm), ref(msg)])
+        elif handler == 'start_election':
+            call = ('RaftNode::start_election', [st.roots['nodeptr']])
+        else:
+            msg = st.fresh('AppendEntries', 'ae')
+            msg.fields[F('AppendEntries', 'entries')] = Seq('LogEntry', [])
+            msg.fields[F('AppendEntries', 'block_embedding')] = none('std::option::Option<tensor_store::SparseVector>')
+            call = ('RaftNode::handle_append_entries', [st.roots['nodeptr'], ref(frm), ref(msg)])
+        res = sc2.run(st, call[0], call[1])
+        ck.note_path_problem(res, f'node-level {handler} log={nlog}')
+        for r in res:
+            wit = lambda m, r=r, N=N, handler=handler: {'node_level': handler, 'pre': pre_dump(m, N, r.st),
+                                                        'msg': {k: mval(m, v.v if isinstance(v, Int) else (v.id if isinstance(v, Str) else v)) for k, v in r.st.symbols.items()
+                                                                if k.startswith(('rv.', 'ae.')) and (isinstance(v, (Int, Str)) or z3.is_bool(v))}}
+            if r.status == 'panic':
+                ck.require(ex2, 'N1_memory_never_ahead_of_wal', r.pc, None, z3.BoolVal(False), wit, lambda m, w: 'node-panic')
+                continue
+            if r.status != 'return':
+                continue
+            f = r.st
+            t1 = N.term(f)
+            v1 = N.vote(f)
+            # restart: reopen the file as it is (every append fsyncs) and recover
+            s3 = sc2.crash(f, len(sc2.file(f).data))
+            for (s4, wp4, e4) in sc2.open(s3, 'node reopen'):
+                if wp4 is None:
+                    ck.require(ex2, 'N1_memory_never_ahead_of_wal', s4.pc, None, z3.BoolVal(False), lambda m, w=dict(node_level=handler, outcome=e4): w, lambda m, w: 'node-reopen')
+                    continue
+                rr = sc2.run(s4, 'RaftRecoveryState::from_wal', [s4.roots['wal']])
+                ck.note_path_problem(rr, 'from_wal')
+                for r5 in rr:
+                    if r5.status != 'return' or r5.retval.variant != 'Ok':
+                        ck.require(ex2, 'N1_memory_never_ahead_of_wal', r5.pc, None, z3.BoolVal(False), wit, lambda m, w: 'node-recovery-failed')
+                        continue
+                    rs = r5.retval.fields[('Ok', 0)]
+                    ct = rs.load(P.field('RaftRecoveryState', 'current_term'), 'u64', r5.st).v
+                    vf = rs.load(P.field('RaftRecoveryState', 'voted_for'), None, r5.st)
+                    vfd = vf.disc if not isinstance(vf.disc, int) else z3.BitVecVal(vf.disc, 64)
+                    v1d = disc(v1)
+                    cs = [ct == t1, vfd == v1d]
+                    if not (isinstance(vf.disc, int) and vf.disc == 0) and not (isinstance(v1.disc, int) and v1.disc == 0):
+                        cs.append(z3.Implies(v1d == 1, vf.load(('Some', 0), 'std::string::String', r5.st).id == v1.load(('Some', 0), 'std::string::String', r5.st).id))
+                    ck.require(ex2, 'N1_memory_never_ahead_of_wal', r5.pc, None, z3.And(cs), wit, lambda m, w: 'memory-ahead-of-wal')
+                    node_runs += 1
+if node_runs == 0:
+    ck.inconclusive.append('vacuous: node-level obligation never instantiated')
+
 # ------------------------------------------------------------------ native replay on real files
 for v in ck.violations:
     w = v['witness']
@@ -161,6 +254,10 @@ for v in ck.violations:
             v['replayed'] = rep.get('replay1_ok') is False or rep.get('replay1_matches') is False
         else:
             v['replayed'] = rep.get('replay2_ok') is False or rep.get('new_record_recovered') is False or rep.get('replay2_prefix_matches') is False
+    elif w.get('node_level'):
+        rep = Replay.call({'op': 'raft_node_restart', **w})
+        v['native'] = rep
+        v['replayed'] = rep.get('violates')
     elif w.get('mirror'):
         rep = Replay.call({'op': 'raft_wal_mirror', **w})
         v['native'] = rep
